@@ -42,7 +42,7 @@ class C16(Prop):
     all_branches = (["mod:ok", "mod:moduleExists", "wire:ok", "wire:unknownOutputPort", "wire:unknownInputPort",
                      "wire:typeMismatch", "wire:integrityViolation", "rawwire", "handler:ret", "handler:retnone",
                      "handler:raise", "handler:xraise", "handler:retd", "handler:retv", "handler:unknownModule",
-                     "handler:retobj", "handler:reenter", "handler:mut"] + EDIT_TAGS + [ "ext", "caps",
+                     "handler:retobj", "handler:reenter", "handler:mut", "handler2", "exec2"] + EDIT_TAGS + [ "ext", "caps",
                      "caps2", "capsmut", "speccaps", "share:ok", "share:moduleExists", "mod2:ok", "flow:ok", "flow:typeMismatch",
                      "flow:integrityViolation", "exec:ok"]
                     # the per-delivery "Multiple values" guard is unreachable since fix 56841f4 (two wires into one port and
@@ -220,6 +220,19 @@ class C16(Prop):
         lines.append(f"exec {show_bool(not e)}")
         if rng.random() < 0.15:
             lines.append("exec d")                            # enforce_static_checks left at its default
+        if rng.random() < 0.12:
+            # a second executor on the same diagram with its own handlers (other payloads, some missing, some raising)
+            for m in names:
+                if not outs[m] and rng.random() < 0.7:
+                    continue
+                x = rng.random()
+                if x < 0.12:
+                    continue
+                ent = " ".join(f"{p}:raw:{rng.randrange(100)}" if rng.random() < 0.7 else f"{p}:typed:{dt}:{il}:{rng.randrange(100)}"
+                               for p, (dt, il) in outs[m])
+                lines.append(f"handler2 {m} {rng.choice(['ret', 'ret', 'ret', 'reenter', 'raise', 'mut del'])} {ent}".strip())
+            lines += [f"exec2 {rng.choice(['1', '0', 'd'])}", f"exec {rng.choice(['1', '0', 'd'])}",
+                      f"exec2 {rng.choice(['1', '0', 'd'])}"]
         if rng.random() < 0.3:
             lines += self._growth_history(rng, names, outs)
         lines.append("caps")
@@ -319,7 +332,8 @@ class C16(Prop):
                                              "mod 0 I O C", "rawwire 0 0 0 0", "exec 0", "mod 0 I 0:0:0 O 0:0:0 C",
                                              "wire 0 0 0 0", "handler 0 ret 0:raw:3", "setin 0 0 0 0", "delin 0 0",
                                              "addcap 0 1", "handler 0 retobj list", "handler 0 mut del", "handler 0 reenter",
-                                             "handler 0 retobj nothing", "setout 0 0 0 1", "delout 0 0"])
+                                             "handler 0 retobj nothing", "setout 0 0 0 1", "delout 0 0", "exec2 1",
+                                             "handler2 0 ret 0:raw:1"])
                                  for _ in range(rng.randrange(1, 7))], "note": "malformed"}
             else:
                 yield self._gen_case(rng, wild=rng.random() < 0.3)
@@ -462,6 +476,17 @@ class C16(Prop):
                                "truthy non-mappings) on each module; every non-empty set of handlers re-entering execute() "
                                "(plain, with a raising / mislabelling neighbour, with a doubly fed port); every in-place "
                                "mutation of the input dict on the inner and the sink module", "cases": cases})
+        # J: two executors on one diagram; the second one has every subset of handlers (with other payloads)
+        cases = []
+        for mask in range(8):
+            h2 = [f"handler2 {m} ret" + ("" if m == 2 else f" 0:raw:{40 + m}") for m in range(3) if mask >> m & 1]
+            for seq in (["exec 1", "exec2 1", "exec 1"], ["exec2 1", "exec 1", "exec2 0"], ["exec2 d"]):
+                cases.append({"lines": chain + ["handler 0 ret 0:raw:4", "handler 1 ret 0:raw:5", "handler 2 ret"] + h2 + seq,
+                              "note": "two executors on one diagram"})
+                cases.append({"lines": chain + h2 + ["exec2 1", "handler 0 ret 0:raw:4", "exec 1", "handler 1 ret 0:raw:5"] + seq,
+                              "note": "two executors on one diagram"})
+        spaces.append({"name": "two executors on one diagram: the second with every subset of handlers (other payloads), runs "
+                               "interleaved, first executor complete or growing", "cases": cases})
         # D: a source module (no inputs) and a module with an input, each with every raising adversary
         cases = []
         for cls in EXC:
@@ -549,6 +574,7 @@ class C16(Prop):
         d2 = W.WiringDiagram()       # may share ModuleSpec objects with d
         last_caps: dict = {}         # the set objects most recently returned by required_capabilities()
         ex = R.DiagramExecutor(d)
+        ex2 = R.DiagramExecutor(d)   # a second executor on the same diagram, with its own handler table
         ext: dict = {}
         calls: list = []
         obs, extra = [], []
@@ -563,9 +589,9 @@ class C16(Prop):
         inner_calls: list = []
         inner_stat: list = []        # outcome of each inner execute() of the current outer execute()
         cur: dict = {}               # arguments of the execute() in progress
-        mut_mods: set = set()
+        mut_mods: dict = {1: set(), 2: set()}
 
-        def mk_handler(n, kind, entries, fail=None, sig="1", obj=None, mut=None):
+        def mk_handler(n, kind, entries, fail=None, sig="1", obj=None, mut=None, exe=None):
             def body(inputs):
                 real = inputs if inputs is not None else {}
                 snap = {unm(p): self._tv(tv) for p, tv in real.items()}
@@ -590,9 +616,9 @@ class C16(Prop):
                     try:
                         a = {k: dict(v) for k, v in cur["ext"].items()} or None
                         if cur["enforce"] is None:
-                            ex.execute(a)
+                            exe.execute(a)
                         else:
-                            ex.execute(a, enforce_static_checks=cur["enforce"])
+                            exe.execute(a, enforce_static_checks=cur["enforce"])
                         inner_stat.append("ok")
                     except Exception as e:
                         inner_stat.append(self._exc(e))
@@ -664,8 +690,10 @@ class C16(Prop):
                     a, p, b, q = map(int, t[1:5])
                     d.wires.append(W.Wire(mname(a), pname(p), mname(b), pname(q)))
                     o = "ok"
-                elif op == "handler":
+                elif op in ("handler", "handler2"):
                     n, kind = int(t[1]), t[2]
+                    which = 1 if op == "handler" else 2
+                    exe = ex if which == 1 else ex2
                     entries = []
                     fail, sig = None, "1"
                     rest_h = t[3:]
@@ -693,9 +721,9 @@ class C16(Prop):
                     if kind not in ("raise", "retnone", "reenter"):
                         kind = "ret"
                     try:
-                        ex.register_module(mname(n), mk_handler(n, kind, entries, fail, sig, obj, mut))
+                        exe.register_module(mname(n), mk_handler(n, kind, entries, fail, sig, obj, mut, exe))
                         o = "ok"
-                        (mut_mods.add if mut else mut_mods.discard)(n)
+                        (mut_mods[which].add if mut else mut_mods[which].discard)(n)
                     except Exception as e:
                         o = self._exc(e)
                 elif op in ("setin", "setout") and len(t) == 5:
@@ -723,7 +751,9 @@ class C16(Prop):
                         raise ValueError
                     ext.setdefault(mname(int(t[1])), {})[pname(int(t[2]))] = v
                     o = "ok"
-                elif op == "exec":
+                elif op in ("exec", "exec2"):
+                    which = 1 if op == "exec" else 2
+                    exe = ex if which == 1 else ex2
                     del calls[:]
                     del inner_stat[:]
                     depth[0] = 0
@@ -731,11 +761,11 @@ class C16(Prop):
                     extarg = {k: dict(v) for k, v in ext.items()} or None
                     cur.update(ext={k: dict(v) for k, v in ext.items()}, enforce=None if t[1] == "d" else enforce)
                     if t[1] == "d":
-                        kind, val = self._bounded(lambda: ex.execute(extarg))
+                        kind, val = self._bounded(lambda: exe.execute(extarg))
                     else:
-                        kind, val = self._bounded(lambda: ex.execute(extarg, enforce_static_checks=enforce))
+                        kind, val = self._bounded(lambda: exe.execute(extarg, enforce_static_checks=enforce))
                     cs = list(calls)
-                    x = {"calls": cs, "enforce": enforce, "inner": list(inner_stat), "mut": set(mut_mods)}
+                    x = {"calls": cs, "enforce": enforce, "inner": list(inner_stat), "mut": set(mut_mods[which])}
                     cstr = "[" + ";".join(f"{n}({self._show_tvs(s)})" for n, s in cs) + "]"
                     if inner_stat:
                         cstr += " inner=[" + ";".join(inner_stat) + "]"
@@ -756,7 +786,7 @@ class C16(Prop):
                             cstr, istr = cstr.split(" inner=")
                             istr = " inner=" + istr
                         o = (f"ok order=[{','.join(map(str, order))}] calls={cstr} mods=["
-                             + ";".join(f"{m}<{'?' if m in mut_mods else self._show_tvs(i)}|{self._show_tvs(oo)}>"
+                             + ";".join(f"{m}<{'?' if m in mut_mods[which] else self._show_tvs(i)}|{self._show_tvs(oo)}>"
                                         for m, i, oo in mods) + "]" + istr)
                 elif op in ("caps", "caps2") and len(t) == 1:
                     try:
@@ -836,6 +866,8 @@ class C16(Prop):
         mods: dict = {}          # name -> (inputs {p: (dt, il)}, outputs {p: (dt, il)}, caps)
         wires: list = []         # (a, p, b, q, via_connect)
         handlers: dict = {}      # name -> ("raise" | "retnone" | "ret", [(port, None | (dt, il))])
+        handlers_2: dict = {}    # the same for the second executor
+        mutset_2: set = set()
         ext: dict = {}           # (m, p) -> None (raw) | (dt, il)
         shared2: set = set()     # modules whose spec OBJECT is also in the second diagram
         mutset: set = set()      # modules whose handler mutates the dict it is given
@@ -907,12 +939,13 @@ class C16(Prop):
                     mods[n] = (i_, o_, frozenset(c_))
                     if n in shared2:                       # one ModuleSpec object registered in both diagrams
                         mods2[n] = frozenset(c_)
-            elif op == "handler":
+            elif op in ("handler", "handler2"):
                 if o == "ok":
                     ent = []
-                    mutset.discard(int(t[1]))
+                    hd_, ms_ = (handlers, mutset) if op == "handler" else (handlers_2, mutset_2)
+                    ms_.discard(int(t[1]))
                     if t[2] == "mut":
-                        mutset.add(int(t[1]))
+                        ms_.add(int(t[1]))
                     for z in (t[7:] if t[2] == "xraise" else t[4:] if t[2] in ("retobj", "mut") else t[3:]):
                         f = z.split(":")
                         if len(f) == 3 and f[1] == "raw":
@@ -923,13 +956,13 @@ class C16(Prop):
                     for p, v in ent:
                         first.setdefault(p, v)
                     if t[2] == "xraise":
-                        handlers[int(t[1])] = ("raise", first, t[3])
+                        hd_[int(t[1])] = ("raise", first, t[3])
                     elif t[2] == "retobj" and t[3] in NONDICT:
-                        handlers[int(t[1])] = ("nondict", {}, "AttributeError")
+                        hd_[int(t[1])] = ("nondict", {}, "AttributeError")
                     elif t[2] == "retobj" and t[3] in FALSY:
-                        handlers[int(t[1])] = ("ret", {}, "RuntimeError")
+                        hd_[int(t[1])] = ("ret", {}, "RuntimeError")
                     else:
-                        handlers[int(t[1])] = (t[2] if t[2] in ("raise", "retnone") else "ret", first, "RuntimeError")
+                        hd_[int(t[1])] = (t[2] if t[2] in ("raise", "retnone") else "ret", first, "RuntimeError")
             elif op == "ext":
                 ext[(int(t[1]), int(t[2]))] = None if t[3] == "raw" else (int(t[4]), int(t[5]))
             elif op == "caps":
@@ -950,9 +983,10 @@ class C16(Prop):
                     want = f"ok {a}/{b}/{k}" if good else "raise:WiringError"
                 if o != want:
                     V("label_guard_" + op, want, o, idx)
-            elif op == "exec":
+            elif op in ("exec", "exec2"):
                 # "d" = default argument: the text promises nothing about wires that bypassed connect then
-                self._oracle_exec(V, idx, extra[idx], None if t[1] == "d" else t[1] == "1", mods, wires, handlers, ext, mutset)
+                self._oracle_exec(V, idx, extra[idx], None if t[1] == "d" else t[1] == "1", mods, wires,
+                                  handlers if op == "exec" else handlers_2, ext, mutset if op == "exec" else mutset_2)
         return out
 
     def _oracle_exec(self, V, idx, x, enforce, mods, wires, handlers, ext, mutset=frozenset()):
